@@ -43,14 +43,24 @@ fn encode_row(ch: &mut Chooser, cells: &[OVal], annotate: bool) -> Vec<(OCell, u
     let mut n = cells.len();
     while n > 0 && cells[n - 1] == OVal::Empty { n -= 1; }
     let trailing = cells.len() - n;
+    let (mut force_covered, mut force_rest, mut merged_prev) = (false, false, false);
     let mut i = 0;
     while i < n {
         let mut j = i;
         while j < n && cells[j] == cells[i] { j += 1; }
+        // a single value followed by interior empties may be the head of a horizontally merged region: it declares how many
+        // columns it spans and the empties it hides are covered cells
+        let next_empty = if j < n && j - i == 1 && cells[i] != OVal::Empty { let mut k = j; while k < n && cells[k] == OVal::Empty { k += 1; } if k < n { k - j } else { 0 } } else { 0 };
+        let merged = next_empty > 0 && ch.flag("value-heads-a-horizontal-merge");
+        if merged { force_covered = true; }
+        let is_empty_run = cells[i] == OVal::Empty;
         for p in encode_run(ch, "cell-run-cut", j - i) {
-            let covered = cells[i] == OVal::Empty && ch.flag("covered-cell");
-            out.push((OCell { val: cells[i].clone(), formula: None, covered, annotation: annotate && !matches!(cells[i], OVal::Empty) }, p));
+            let covered = is_empty_run && (std::mem::replace(&mut force_covered, false) | force_rest | ch.flag("covered-cell"));
+            if is_empty_run && covered && merged_prev { force_rest = true; }
+            out.push((OCell { val: cells[i].clone(), formula: None, covered, annotation: annotate && !is_empty_run, spanned: if merged { Some((next_empty as u32 + 1, 1)) } else { None } }, p));
         }
+        force_rest = false;
+        merged_prev = merged;
         i = j;
     }
     // trailing empties of the row: absent, exact, or padded to a wide sheet
